@@ -419,6 +419,13 @@ fn values_for(t: T, big: &str) -> Vec<Value> {
             for s in ["", "=", "==", "A", "AA", "AA=", "AA==", "AAA", "AAAA", "AQ", "Ag", "Aw", "/w", "//8", "!!", "AA AA", "AA\nAA", "\u{e9}", "A\u{e9}==", "AA=\u{e9}", "=AAAA", "A=AA", "AQD/", "AQD/AA", "AQD//w", "Av///w", "AijEsvYgBA", "AAECAwQ"] { v.push(json!(s)); }
             for p in 0u8..=8 { v.push(json!(BASE64_STANDARD_NO_PAD.encode([p, 0x60, 0x00, 0x60, 0x00, 0xf3]))); v.push(json!(BASE64_STANDARD_NO_PAD.encode([p]))); }
             for p in [0x7fu8, 0x80, 0xfe, 0xff] { v.push(json!(BASE64_STANDARD_NO_PAD.encode([p, 1, 2, 3]))); }
+            // zstd frames whose header declares an absurd content size (the size must not drive an allocation)
+            for declared in [1u64 << 63, u64::MAX - 1, (1u64 << 62) + 12345] {
+                let mut f: Vec<u8> = vec![2, 0x28, 0xB5, 0x2F, 0xFD, 0xE0];
+                f.extend_from_slice(&declared.to_le_bytes());
+                f.extend_from_slice(&[0x01, 0x00, 0x00]);
+                v.push(json!(BASE64_STANDARD_NO_PAD.encode(&f)));
+            }
             for x in [json!(0), json!([]), json!({}), json!(true), Value::Null, json!(big)] { v.push(x); }
         }
         OptBool => { for x in [json!(true), json!(false), Value::Null, json!(0), json!(1), json!("true"), json!([]), json!({})] { v.push(x); } }
@@ -718,9 +725,13 @@ pub fn stream_cases(seed: u64, thorough: bool) -> Vec<Case> {
                 if m == "brc20_mine" && i == 0 && (val.as_u64().map(|x| x > 300).unwrap_or(false) || val.as_str().map(|s| s.starts_with("$H")).unwrap_or(false)) { continue; }
                 let mut p = base.clone();
                 p[i] = val;
+                // a base64 payload is only decoded when the hex field beside it is absent (both = refused before
+                // any decoding): every other base64 value goes out alone
+                let alone = if *t == T::OptB64 && i > 0 && sig[i - 1] == T::OptRaw && p[i].is_string() { let mut q = p.clone(); q[i - 1] = Value::Null; Some(q) } else { None };
                 let heavy = p[i].as_str().map(|s| s.len() > 100_000).unwrap_or(false);
                 if heavy && !thorough && rng.chance(2, 3) { continue; }
                 c.std(&format!("pos{}_{:?}", i, t), m, Value::Array(p));
+                if let Some(q) = alone { c.std(&format!("pos{}_{:?}_alone", i, t), m, Value::Array(q)); }
             }
         }
         // two positions at once (integers at both ends)
